@@ -10,7 +10,9 @@ stands for the identity of the returned object / raised exception.  The class hi
     ConnectionError(TransportError)   (TlsError / SSLError are subclasses)
     ConnectionTimeout(TransportError) (NOT a ConnectionError)
     ApiError(Exception)               (NOT a TransportError; status_code = meta.status)
-    SerializationError, SniffingError, plain TransportError  → "other transport error"
+    SerializationError, SniffingError, plain TransportError  → "other transport error": not caught
+        (the former trailing `except TransportError` clause, which swallowed them and retried without
+        sleeping, was removed by the fix 9eaa174)
 
 The run is a trace of events (delegate call / `asyncio.sleep(d)`) and a final result.  When the
 script is used up before the loop terminates the result is `pending` (the delegate would be
@@ -94,7 +96,6 @@ inductive Step
   | ret
   | raise
   | retrySleep
-  | retryNoSleep
 deriving Repr, DecidableEq
 
 /-- one pass through the `try/except` chain for an outcome of class `k`;
@@ -112,9 +113,8 @@ def classify (c : Cfg) (last : Bool) : Kind → Step
   | .apiOther => .raise
   -- except elasticsearch.exceptions.ConnectionTimeout
   | .connTimeout => if last || !c.retryOnTimeout then .raise else .retrySleep
-  -- except elasticsearch.exceptions.TransportError: swallowed, *no sleep*, next iteration
-  | .transportOther => if last || !c.retryOnTimeout then .raise else .retryNoSleep
-  -- not caught
+  -- not caught: other transport errors and every other exception propagate
+  | .transportOther => .raise
   | .otherExc => .raise
 
 /-- `for attempt in range(max_attempts)` from iteration `attempt` on, against the remaining script -/
@@ -128,9 +128,6 @@ def loop (c : Cfg) (attempt : Nat) : List Outcome → Run
     | .retrySleep =>
       let r := loop c (attempt + 1) rest
       ⟨r.res, .call :: .sleep c.sleepTime :: r.trace⟩
-    | .retryNoSleep =>
-      let r := loop c (attempt + 1) rest
-      ⟨r.res, .call :: r.trace⟩
 
 def retry (p : Params) (outs : List Outcome) : Run := loop (cfg p) 0 outs
 
